@@ -643,8 +643,8 @@ func c03Min(a, b int) int {
 	return b
 }
 
-// onEnter: call th handed th.coords to the getter.
-func (w *c03World) onEnter(th *c03Thread) {
+// onEnter: call th handed th.coords to the getter (drewNow: it read random bytes on the way, i.e. made the draw itself).
+func (w *c03World) onEnter(th *c03Thread, drewNow bool) {
 	h := w.sc.Hdrs[th.h]
 	t := w.truthOf(h.Root)
 	// at most one call per height inside the getter
@@ -672,7 +672,9 @@ func (w *c03World) onEnter(th *c03Thread) {
 			t.firstSet[c] = true
 			t.pending[c] = true
 		}
-		if len(th.coords) != c03Min(w.count, h.W*h.W) {
+		// (after a failed eager persist whose draw survived, the first request may be for the draw of an earlier call, made
+		// under the SampleAmount of an earlier instance)
+		if (drewNow || !t.storeFault) && len(th.coords) != c03Min(w.count, h.W*h.W) {
 			w.viol("draw-count", fmt.Sprintf("root %d: %d coordinates drawn, want min(%d,%d)", h.Root, len(th.coords), w.count, h.W*h.W))
 		}
 	} else {
@@ -954,7 +956,7 @@ func (w *c03World) process(th *c03Thread, bytes []byte, contractOK bool) {
 				map[string]any{"w": h.W, "count": w.count, "bytes": bytes, "coords": th.coords}, "draw")
 			w.r.Count("draw_w", fmt.Sprint(h.W))
 		}
-		w.onEnter(th)
+		w.onEnter(th, len(bytes) > 0)
 	}
 	if th.state == c03Returned {
 		w.onReturn(th, contractOK)
@@ -1255,7 +1257,7 @@ func c03GenScenario(rng *zv.Rand, idx int) (*c03Scenario, int, int) {
 }
 
 // c03GenFault: a datastore fault for a call (load or eager persist) or for the persist after an answer
-func c03GenFault(rng *zv.Rand, withLoad bool) *c03Fault {
+func c03GenFault(rng *zv.Rand, withLoad bool, batch int) *c03Fault {
 	f := &c03Fault{Nth: 1}
 	p := rng.Intn(100)
 	switch {
@@ -1269,7 +1271,7 @@ func c03GenFault(rng *zv.Rand, withLoad bool) *c03Fault {
 	default:
 		f.Op = "bput"
 	}
-	if f.Op != "bput" && rng.Chance(30) {
+	if f.Op != "bput" && batch < 3 && rng.Chance(50) {
 		f.Nth = 2 // the explicit Flush after a threshold flush (small write batches)
 	}
 	return f
@@ -1316,7 +1318,7 @@ func c03Next(w *c03World, rng *zv.Rand, maxThreads int, nextTid *int, draining b
 			}
 			op := c03Op{Kind: "call", T: *nextTid, H: h, PreCancel: rng.Chance(6), Deadline: rng.Chance(30)}
 			if rng.Chance(13) {
-				op.Fault = c03GenFault(rng, true)
+				op.Fault = c03GenFault(rng, true, w.sc.Batch)
 			}
 			*nextTid++
 			return op, "", true
@@ -1335,7 +1337,7 @@ func c03Next(w *c03World, rng *zv.Rand, maxThreads int, nextTid *int, draining b
 			r, kind := c03GenResp(rng, len(th.coords), true)
 			op := c03Op{Kind: "resp", T: th.id, Resp: &r}
 			if rng.Chance(14) {
-				op.Fault = c03GenFault(rng, false)
+				op.Fault = c03GenFault(rng, false, w.sc.Batch)
 			}
 			return op, kind, true
 		case p >= 84 && p < 90 && len(blocked) > 0:
@@ -1371,7 +1373,7 @@ func c03ProbeDrop() bool {
 	la := NewShareAvailability(nil, &c03DS{Batching: ds_sync.MutexWrap(datastore.NewMapDatastore()), dead: &atomic.Bool{}, w: probe}, nil)
 	key := datastore.NewKey("c03-probe")
 	if err := la.storeResult(th.ctx, key, &SamplingResult{}); err == nil {
-		panic("c03: probe: the armed datastore fault did not fail storeResult")
+		return false // storeResult did not flush at all: whatever it wrote is (only) in the write buffer
 	}
 	la.dsLk.RLock()
 	_, err := la.ds.Get(context.Background(), key)
